@@ -204,6 +204,29 @@ func c17Probes() []c17Probe {
 				}
 			})
 		}},
+		{"RefreshRoots||AddChain(chain that does not verify)", []string{"Distributor.RefreshRoots"}, []string{"Distributor.addSomeChain.func1"}, func(t *testing.T) {
+			// the chain is rooted in root 0, every log accepts roots 1 and 2 only: the verification-failure path
+			chain := [][]byte{c17Leaf(c17PKI()[0], time.Date(2023, 1, 1, 0, 0, 0, 0, time.UTC), time.Date(2023, 12, 1, 0, 0, 0, 0, time.UTC), false), c17PKI()[0].der}
+			c17Both(30, func() (func(), func()) {
+				logs := c17ProbeLogs()
+				for _, l := range logs {
+					l.roots = []int{1, 2}
+				}
+				sub := &c17Submitter{start: time.Now(), scripts: map[string]c17Script{}}
+				for _, l := range logs {
+					sub.scripts[l.url] = l.script
+				}
+				d, err := NewDistributor(c17LogList(logs), ctpolicy.ChromeCTPolicy{}, c17Builder(logs, sub), nil)
+				if err != nil {
+					panic(err)
+				}
+				return func() { d.RefreshRoots(context.Background()) }, func() {
+					ctx, cancel := context.WithTimeout(context.Background(), 5*time.Second)
+					defer cancel()
+					_, _ = d.AddChain(ctx, chain, false)
+				}
+			})
+		}},
 		{"request||setResult||collect", []string{"safeSubmissionState.request", "safeSubmissionState.groupComplete"},
 			[]string{"safeSubmissionState.setResult", "safeSubmissionState.collectSCTs"}, func(t *testing.T) {
 				c17Both(40, func() (func(), func()) {
